@@ -362,11 +362,16 @@ impl TestRunner {
         match opcode {
             0x20 => {
                 // jsr
-                let wait_until_pc = self.cpu.get_program_counter() + 3;
+                let wait_until_pc = self.cpu.get_program_counter().wrapping_add(3);
+                // The subroutine has returned once the stack is back to where it is now. Just looking at the program counter is
+                // not enough: with recursion a nested invocation gets to the same address first.
+                let wait_until_sp = self.cpu.get_stack_pointer();
                 loop {
                     let result = self.execute_instruction()?;
 
-                    if self.cpu.get_program_counter() == wait_until_pc {
+                    if self.cpu.get_program_counter() == wait_until_pc
+                        && self.cpu.get_stack_pointer() == wait_until_sp
+                    {
                         return Ok(result);
                     }
 
@@ -388,22 +393,22 @@ impl TestRunner {
             return Ok(ExecuteResult::Running);
         }
 
-        let sp_lo =
-            self.ram.read().unwrap().ram[256 + self.cpu.get_stack_pointer() as usize + 1] as usize;
-        let sp_hi =
-            self.ram.read().unwrap().ram[256 + self.cpu.get_stack_pointer() as usize + 2] as usize;
-        let will_return_to = 1 + sp_lo + 256 * sp_hi;
-
+        // Run until the 'rts' that belongs to the subroutine we are in. The return address cannot be taken from the top
+        // of the stack, since the subroutine may have pushed data on top of it, so the calls and returns are counted.
+        let mut nested_calls = 0usize;
         loop {
-            if self.cpu.get_program_counter() == will_return_to as u16 {
-                return Ok(ExecuteResult::Running);
-            }
-
-            match self.execute_instruction()? {
-                ExecuteResult::Running => {}
-                result => {
+            let opcode = self.ram.read().unwrap().ram[self.cpu.get_program_counter() as usize];
+            let result = self.execute_instruction()?;
+            match (opcode, &result) {
+                (_, ExecuteResult::TestFailed(..)) | (_, ExecuteResult::TestSuccess(..)) => {
                     return Ok(result);
                 }
+                // jsr
+                (0x20, _) => nested_calls += 1,
+                // rts
+                (0x60, _) if nested_calls == 0 => return Ok(result),
+                (0x60, _) => nested_calls -= 1,
+                _ => {}
             }
         }
     }
